@@ -176,8 +176,8 @@ def families(eng, tier, seed):
         if n in SKIP: continue
         if tier == "quick" and len(r) > 45: continue
         multi = len({tuple(t["path"]) for t in r if t["path"]}) < sum(1 for t in r if t["path"])
-        dd = n in ("versions", "versions_hdr", "assoc_skip", "assoc_noskip", "assoc_same", "assoc_twins")
-        reg = strip_segment(r, ("v1", "v2")) if n == "versions" else strip_segment(r, ("h1", "h2")) if n == "versions_hdr" else r
+        dd = n in ("versions", "versions_hdr", "versions_hdr_mirror", "assoc_skip", "assoc_noskip", "assoc_same", "assoc_twins")
+        reg = strip_segment(r, ("v1", "v2")) if n == "versions" else strip_segment(r, ("h1", "h2")) if n in ("versions_hdr", "versions_hdr_mirror") else r
         ps = perms_for(len(reg), tier, rnd)
         if ps: fams.append(perm_family("perm-%s" % n, reg, ps, dd))
         ips = []
